@@ -107,5 +107,8 @@ class PROP(Prop):
 
     def bounded(self, tier):
         res = run_oracle("c01_roundtrip.py", self._spec(["10**4300"]))
-        return [{"name": "native-roundtrip-battery", "bound": f"{len(VALUES) + 1} values, {len(UNSUPPORTED)} unsupported values: dumps == reference bytes, loads(dumps(v)) type-exact, dump/load over a stream",
+        res2 = run_oracle("c01_channel.py", None, timeout=120)
+        extra = [{"name": "native-channel-send-sequence", "bound": "one popen gateway: 4 supported and 3 rejected sends interleaved on one channel (usable after DumpError, type-exact echo)",
+                  "evaluations": res2.get("n", 0), "failures": 1 if res2.get("failed") else 0, "detail": res2.get("results") if res2.get("failed") else None}]
+        return extra + [{"name": "native-roundtrip-battery", "bound": f"{len(VALUES) + 1} values, {len(UNSUPPORTED)} unsupported values: dumps == reference bytes, loads(dumps(v)) type-exact, dump/load over a stream",
                  "evaluations": res.get("n", 0), "failures": 1 if res.get("failed") else 0, "detail": res.get("results") if res.get("failed") else None, "known_inputs_skipped": res.get("known")}]
